@@ -14,6 +14,7 @@ import AmrK.MenuR
 import AmrK.PathsDefaults
 import AmrK.ChunksCover
 import AmrK.CellHCodec
+import AmrK.HypsModel
 /-! `amrk-driver`: one JSON object per line in, one JSON object per line out.
     Executable definitions of the model only (no Mathlib behind any import). -/
 open Lean
@@ -206,7 +207,8 @@ def opColumn (j : Json) : Except String Json := do
   let c ← cfgOfJson j
   let r := match Column.result c with | some x => ratJ x | none => Json.null
   let gl := match Column.gridLevel c with | some x => toJson x | none => Json.null
-  return Json.mkObj [("result", r), ("grid_level", gl)]
+  let n := (j.getObjValAs? Nat "N").toOption.getD 0
+  return Json.mkObj [("result", r), ("grid_level", gl), ("wf0", toJson (Column.wf0B c n))]
 
 /-! ### pestle -/
 open Pestle in
@@ -224,7 +226,8 @@ def opPestle (j : Json) : Except String Json := do
       return ({ lo, hi, data } : Box)
     return ({ grid, dx, boxes } : Level)
   let res := match integral repaired levels with | some x => ratJ x | none => Json.null
-  return Json.mkObj [("integral", res), ("spec", ratJ (integralSpec levels)), ("rez", toJson (boxRez repaired levels))]
+  return Json.mkObj [("integral", res), ("spec", ratJ (integralSpec levels)), ("rez", toJson (boxRez repaired levels)),
+    ("aligned", toJson (alignedAllB (boxRez repaired levels) levels))]
 
 /-! ### global Header -/
 open Header in
